@@ -81,7 +81,7 @@ struct Holder<T>(T);
 impl<T: Task<()> + 'static> ShimTask for Holder<T> {
     fn run_box(self: Box<Self>, allow_loop: bool) {
         // the store's reducer loop is the closure defined in `StoreImpl::new_with`
-        if contains(core::any::type_name::<T>(), "new_with") && !allow_loop {
+        if <T as IsLoop>::IS_LOOP && !allow_loop {
             panic!("VERIF-MODEL: reducer loop task scheduled from a nested context");
         } else {
             (*self).0.run()
